@@ -118,6 +118,27 @@ theorem c14_frame_roundtrip (chans : List Int) (c : Nat) (ch : Int) (data rest :
       readPacket genCfg chans (w ++ rest) = .ok (some ⟨c, data, off⟩, rest) :=
   readPacket_writePacket genCfg chans c ch data rest off hc hch hr hfirst hlen hrtp
 
+/-- `c14_frame_any_payload`: the frame statement WITHOUT the RTP-header hypothesis of
+    `c14_frame_roundtrip` — for EVERY payload of 0…65535 bytes on every subscribed channel and
+    EVERY continuation: `ReadPacket` consumes exactly the frame `Packet.Write` wrote (the stream
+    is left at `rest`) and either delivers it with the same channel type and payload, or — only
+    on the two media channels, and only when the payload has no parsable RTP header, which no
+    packet the server or the pull client relays has — skips it.  So a frame never desynchronises
+    the stream, whatever it carries. -/
+theorem c14_frame_any_payload (chans : List Int) (c : Nat) (ch : Int) (data rest : Bytes)
+    (hc : c < 4) (hch : chans[c]? = some ch) (hr : 0 ≤ ch ∧ ch ≤ 255)
+    (hfirst : findChannel chans ch 0 = some c) (hlen : data.length ≤ 65535) :
+    ∃ w o, writePacket chans c data = some w ∧ readPacket genCfg chans (w ++ rest) = .ok (o, rest) ∧
+      (∀ p, o = some p → p.channel = c ∧ p.data = data) ∧
+      (o = none → (c = 0 ∨ c = 2) ∧ ∀ off, rtpUnmarshal data ≠ .ok off) :=
+  readPacket_writePacket_any genCfg c14_codec_facts.2.2.2.1 (by decide) chans c ch data rest hc hch hr hfirst hlen
+
+/-- non-vacuity of `c14_frame_roundtrip` / `c14_frame_any_payload`: channel type 2 on the
+    default table carries a minimal RTP packet -/
+example : ([0, 1, 2, 3] : List Int)[2]? = some 2 ∧ findChannel [0, 1, 2, 3] 2 0 = some 2 ∧
+    (match rtpUnmarshal [0x80, 96, 0, 1, 0, 0, 0, 1, 0, 0, 0, 2, 7] with | .ok off => off == 12 | .error _ => false) = true := by
+  decide
+
 /-- `c14_stream`: for EVERY list of emit-able requests, responses and interleaved frames
     (`Item.OK`: the hypotheses of the three theorems above), the read loop of `Session.process`
     / `PullClient` — `receive` until it fails — applied to their concatenation yields exactly
@@ -199,6 +220,20 @@ theorem c14_content_length_bounded (h : Header) (s : Bytes)
   rcases hbig with hb | ⟨n, hn, hgt⟩
   · simp [hb]
   · simp [hn, hgt]
+
+/-- `c14_bounded` at STREAM level, for EVERY byte string and EVERY `net/url` behaviour: whatever
+    the line reader returns is at most `genMaxLine` bytes long, and whatever request or response
+    the readers accept carries a body of at most `genMaxBody` bytes — so no input makes the
+    codec hold a longer line or a larger body (together with `c14_line_bounded` /
+    `c14_content_length_bounded`: the refusal needs only a bounded prefix).  Not covered: the
+    NUMBER of header lines of one message is not limited by the code. -/
+theorem c14_accepted_is_bounded {U : Type} (ops : UrlOps U) (s : Bytes) :
+    (∀ l r, readLine genCfg s = .ok (l, r) → l.length ≤ genMaxLine) ∧
+    (∀ q r, readRequest genCfg ops s = .ok (q, r) → q.body.length ≤ genMaxBody) ∧
+    (∀ q r, readResponse genCfg s = .ok (q, r) → q.body.length ≤ genMaxBody) :=
+  ⟨fun l r h => readLine_le genCfg genMaxLine c14_codec_facts.1 s l r h,
+   fun q r h => readRequest_body_le genCfg genMaxBody c14_codec_facts.2.1 c14_codec_facts.2.2.1 ops s q r h,
+   fun q r h => readResponse_body_le genCfg genMaxBody c14_codec_facts.2.1 c14_codec_facts.2.2.1 s q r h⟩
 
 /-- the body read error is returned: a stream that ends inside the announced body yields an
     error, never a padded message -/
